@@ -82,7 +82,7 @@ Section SimDel.
                (d = false -> G' = G /\ only_res ev) /\
                (d = true -> is_hashb n' = false) /\
                ev_below p ev /\
-               (forall fu', (length key < fu')%nat -> exists ev', delete R fu' G p key = TOk (d, G', ev')).
+               (forall fu', (length key < fu')%nat -> exists ev', delete R fu' G p key = TOk (d, G', ev') /\ nores ev' = nores ev).
 
   Lemma dp_keep f p n G ev :
     rep H R dirty delp f p n G -> dp_ok p ev false -> only_res ev -> rep H R dirty' delp' f p n G.
@@ -104,11 +104,11 @@ Section SimDel.
     - (* nil *)
       cbn in E. inversion E; subst. exists NEmpty. split; [constructor|]. split; [intros _; split; [reflexivity|constructor]|].
       split; [discriminate|]. split; [apply ev_below_nil|].
-      intros [|fu'] L; [lia|]. eexists. reflexivity.
+      intros [|fu'] L; [lia|]. eexists. split; reflexivity.
     - (* value *)
       cbn in E. inversion E; subst. exists NEmpty. split; [constructor|]. split; [discriminate|].
       split; [reflexivity|]. split; [apply ev_below_nil|].
-      intros [|fu'] L; [lia|]. eexists. reflexivity.
+      intros [|fu'] L; [lia|]. eexists. split; reflexivity.
     - (* hash node *)
       destruct (C p G (gsub_here H f p G e SF EN HB)) as (e' & E' & RS).
       rewrite EN in E'. inversion E'; subst e'.
@@ -139,13 +139,13 @@ Section SimDel.
         inversion E; subst d n' ev.
         exists (NShort nk c'). split; [eapply dp_keep; [exact Rp|exact DP|constructor]|].
         split; [intros _; split; [reflexivity|constructor]|]. split; [discriminate|]. split; [apply ev_below_nil|].
-        intros [|fu'] L; [lia|]. rewrite GU. eexists. reflexivity. }
+        intros [|fu'] L; [lia|]. rewrite GU. eexists. split; reflexivity. }
       destruct (Nat.eqb (prefix_len key nk) (length key)) eqn:EQ.
       { (* the whole key matches: the leaf goes away *)
         inversion E; subst d n' ev.
         exists NEmpty. split; [constructor|]. split; [discriminate|]. split; [reflexivity|].
         split; [intros q [X|[]]; inversion X; apply ple_refl|].
-        intros [|fu'] L; [lia|]. rewrite GU. eexists. reflexivity. }
+        intros [|fu'] L; [lia|]. rewrite GU. eexists. split; reflexivity. }
       apply Nat.ltb_ge in LT. apply Nat.eqb_neq in EQ. rewrite Em in *.
       assert (b' = []).
       { destruct b' as [|x b']; [reflexivity|]. rewrite En, app_length in LT. cbn in LT. lia. }
@@ -171,12 +171,12 @@ Section SimDel.
                  | false, _ => TOk (false, NShort nk c', ev')
                  | true, NShort ck cv => TOk (true, NShort (nk ++ ck) cv, ev' ++ [TDel (p ++ nk)])
                  | true, c0 => TOk (true, NShort nk c0, ev')
-                 end).
+                 end /\ nores ev' = nores ev1).
       { intros [|fu''] L; [lia|]. rewrite GU.
-        destruct (X5 fu'') as [ev' DE'].
+        destruct (X5 fu'') as (ev' & DE' & NE).
         { rewrite Ek, app_length in L. destruct nk; [congruence|cbn in L; lia]. }
         rewrite Ek, firstn_app_exact, skipn_app_exact.
-        rewrite DE'. destruct d1; [destruct G1|]; eauto. }
+        rewrite DE'. exists ev'. split; [destruct d1; [destruct G1|]; reflexivity|exact NE]. }
       destruct d1.
       + pose proof (X3 eq_refl) as NH.
         assert (SH : (exists ck cv cv', n1 = NShort ck cv /\ G1 = NShort ck cv' /\
@@ -191,13 +191,13 @@ Section SimDel.
           { apply rep_short; [rewrite app_assoc; exact Rcv|]. apply dirty_ok. apply Dk; [reflexivity|apply ple_app]. }
           split; [discriminate|]. split; [reflexivity|]. split.
           { apply ev_below_app; [eapply ev_below_up; exact X4|]. intros q [X|[]]. inversion X. apply ple_app. }
-          intros fu' L. destruct (GR fu' L) as [ev' X]. eexists. exact X.
+          intros fu' L. destruct (GR fu' L) as (ev' & X & NE). eexists. split; [exact X|]. rewrite !nores_app, NE. reflexivity.
         * assert (E' : TOk (true, NShort nk n1, ev1) = TOk (d, n', ev)) by (destruct n1; try exact E; exfalso; eapply N1; reflexivity).
           inversion E'; subst d n' ev.
           exists (NShort nk G1). split.
           { apply rep_short; [exact X1|]. apply dirty_ok. apply Dk; [reflexivity|apply ple_app]. }
           split; [discriminate|]. split; [reflexivity|]. split; [eapply ev_below_up; exact X4|].
-          intros fu' L. destruct (GR fu' L) as [ev' X]. exists ev'. rewrite X.
+          intros fu' L. destruct (GR fu' L) as (ev' & X & NE). exists ev'. split; [|exact NE]. rewrite X.
           destruct G1; try reflexivity. exfalso. eapply N2. reflexivity.
       + inversion E; subst d n' ev. destruct (X2 eq_refl) as [-> OR].
         exists (NShort nk c'). split; [eapply dp_keep; [exact Rp|exact DP|exact OR]|].
@@ -248,8 +248,8 @@ Section SimDel.
         exists (NFull cs'). split; [eapply dp_keep; [exact Rp|exact DP|exact OR]|].
         split; [intros _; split; [reflexivity|exact OR]|]. split; [discriminate|].
         split; [eapply ev_below_up; exact X4|].
-        intros [|fu''] L; [lia|]. destruct (X5 fu'') as [ev' DE']; [cbn in L; lia|].
-        cbn [delete]. unfold child. rewrite Ec', DE'. eauto. }
+        intros [|fu''] L; [lia|]. destruct (X5 fu'') as (ev' & DE' & NE); [cbn in L; lia|].
+        cbn [delete]. unfold child. rewrite Ec', DE'. exists ev'. split; [reflexivity|exact NE]. }
       unfold set_child in E.
       destruct (set_nth (N.to_nat k0) n1 cs) as [cs2|] eqn:SN; [|discriminate].
       destruct (set_nth_spec _ _ _ _ SN) as [L2 N2].
@@ -286,9 +286,9 @@ Section SimDel.
         destruct (GSET G1) as [cs2' SN'].
         exists (NFull cs2'). split; [eapply FULLRES; [reflexivity|exact X1|exact X4|exact SN']|].
         split; [discriminate|]. split; [reflexivity|]. split; [eapply ev_below_up; exact X4|].
-        intros [|fu''] L; [lia|]. destruct (X5 fu'') as [ev' DE']; [cbn in L; lia|].
+        intros [|fu''] L; [lia|]. destruct (X5 fu'') as (ev' & DE' & NEV); [cbn in L; lia|].
         cbn [delete]. unfold child. rewrite Ec', DE'. unfold set_child. rewrite SN'.
-        rewrite <- (rep_is_empty_gen _ _ _ _ _ _ _ _ X1), NE. eauto. }
+        rewrite <- (rep_is_empty_gen _ _ _ _ _ _ _ _ X1), NE. exists ev'. split; [reflexivity|exact NEV]. }
       apply negb_false_iff in NE. assert (n1 = NEmpty) by (destruct n1; try discriminate; reflexivity). subst n1.
       assert (K2 : nth_error cs2 (N.to_nat k0) = Some NEmpty) by (rewrite N2, Nat.eqb_refl; reflexivity).
       destruct (GSET NEmpty) as [cs2' SN']. destruct (set_nth_spec _ _ _ _ SN') as [L2' N2'].
@@ -305,17 +305,17 @@ Section SimDel.
         pose proof (G1E _ X1); subst G1.
         exists (NFull cs2'). split; [eapply FULLRES; [reflexivity|exact X1|exact X4|exact SN']|].
         split; [discriminate|]. split; [reflexivity|]. split; [eapply ev_below_up; exact X4|].
-        intros [|fu''] L; [lia|]. destruct (X5 fu'') as [ev' DE']; [cbn in L; lia|].
+        intros [|fu''] L; [lia|]. destruct (X5 fu'') as (ev' & DE' & NEV); [cbn in L; lia|].
         cbn [delete]. unfold child. rewrite Ec', DE'. unfold set_child. rewrite SN'. cbn [is_empty negb].
-        rewrite SCA. eauto. }
+        rewrite SCA. exists ev'. split; [reflexivity|exact NEV]. }
       2: { inversion E; subst n' ev.
         destruct (IHc2 [] (eq_sym (app_nil_r ev1))) as (G1 & X1 & X2 & X3 & X4 & X5); [intros q []|].
         pose proof (G1E _ X1); subst G1.
         exists (NFull cs2'). split; [eapply FULLRES; [reflexivity|exact X1|exact X4|exact SN']|].
         split; [discriminate|]. split; [reflexivity|]. split; [eapply ev_below_up; exact X4|].
-        intros [|fu''] L; [lia|]. destruct (X5 fu'') as [ev' DE']; [cbn in L; lia|].
+        intros [|fu''] L; [lia|]. destruct (X5 fu'') as (ev' & DE' & NEV); [cbn in L; lia|].
         cbn [delete]. unfold child. rewrite Ec', DE'. unfold set_child. rewrite SN'. cbn [is_empty negb].
-        rewrite SCA. eauto. }
+        rewrite SCA. exists ev'. split; [reflexivity|exact NEV]. }
       (* exactly one entry is left: the branch collapses *)
       destruct (single_child_pos cs2 pos k0 SC K2) as (rem & Er & RN & PK & OTH).
       rewrite Er in E.
@@ -331,8 +331,8 @@ Section SimDel.
       pose proof (Rcs _ _ _ Er0 Er') as Rr. rewrite N2Nat.id in Rr.
       (* the ground run up to the inspection of the remaining child *)
       assert (GPRE : forall fu', (length (k0 :: kr) < fu')%nat -> forall G1, G1 = NEmpty ->
-                (forall fu2, (length kr < fu2)%nat -> exists ev', delete R fu2 c' (p ++ [k0]) kr = TOk (true, G1, ev')) ->
-                exists ev', delete R fu' (NFull cs') p (k0 :: kr) =
+                (forall fu2, (length kr < fu2)%nat -> exists ev', delete R fu2 c' (p ++ [k0]) kr = TOk (true, G1, ev') /\ nores ev' = nores ev1) ->
+                exists ev', nores ev' = nores ev1 /\ delete R fu' (NFull cs') p (k0 :: kr) =
                   (if negb (pos =? 16) then
                      match (match rem' with
                             | NHash h => match R h (p ++ [pos]) with
@@ -346,8 +346,8 @@ Section SimDel.
                      | Some (_, ev2) => TOk (true, NShort [pos] rem', ev' ++ ev2)
                      end
                    else TOk (true, NShort [pos] rem', ev'))).
-      { intros [|fu''] L G1 -> X5; [lia|]. destruct (X5 fu'') as [ev' DE']; [cbn in L; lia|].
-        exists ev'. cbn [delete]. unfold child. rewrite Ec', DE'. unfold set_child. rewrite SN'. cbn [is_empty negb].
+      { intros [|fu''] L G1 -> X5; [lia|]. destruct (X5 fu'') as (ev' & DE' & NEV); [cbn in L; lia|].
+        exists ev'. split; [exact NEV|]. cbn [delete]. unfold child. rewrite Ec', DE'. unfold set_child. rewrite SN'. cbn [is_empty negb].
         rewrite SCA. rewrite Er2'. reflexivity. }
       assert (POSJ : forall q ev2, (forall x, In (TDel x) ev2 -> x = p ++ [pos]) -> In (TDel q) ev2 ->
                        exists pos0, q = p ++ [pos0] /\ pos0 <> k0).
@@ -383,7 +383,7 @@ Section SimDel.
         { apply rep_short; [|apply dirty_ok; exact TOP].
           apply (REM []); [rewrite app_nil_r; reflexivity|exact X4|intros x []]. }
         split; [discriminate|]. split; [reflexivity|]. split; [eapply ev_below_up; exact X4|].
-        intros fu' L. destruct (GPRE fu' L NEmpty eq_refl X5) as [ev' X]. eauto. }
+        intros fu' L. destruct (GPRE fu' L NEmpty eq_refl X5) as (ev' & NEV & X). eexists. split; [exact X|]. rewrite ?nores_app, NEV. reflexivity. }
       assert (P15 : (N.to_nat pos < 16)%nat).
       { apply negb_true_iff in P16. apply N.eqb_neq in P16.
         assert (N.to_nat pos < length cs')%nat by (apply nth_error_Some; congruence).
@@ -407,7 +407,7 @@ Section SimDel.
           - eapply wfn_short_key. exact WR. }
         split; [discriminate|]. split; [reflexivity|]. split.
         { apply EB; [exact X4|]. intros q [X|[]]. inversion X. eauto. }
-        intros fu' L. destruct (GPRE fu' L NEmpty eq_refl X5) as [ev' X]. eauto.
+        intros fu' L. destruct (GPRE fu' L NEmpty eq_refl X5) as (ev' & NEV & X). eexists. split; [exact X|]. rewrite ?nores_app, NEV. reflexivity.
       + (* the remaining child is a full node *)
         inversion Rr as [| | | |f1 p1 l0 l' HL1 Rl CO1]; subst.
         inversion E; subst n' ev.
@@ -417,7 +417,7 @@ Section SimDel.
         { apply rep_short; [|apply dirty_ok; exact TOP]. apply (REM [] eq_refl X4). intros x []. }
         split; [discriminate|]. split; [reflexivity|]. split.
         { apply EB; [exact X4|]. intros q []. }
-        intros fu' L. destruct (GPRE fu' L NEmpty eq_refl X5) as [ev' X]. eauto.
+        intros fu' L. destruct (GPRE fu' L NEmpty eq_refl X5) as (ev' & NEV & X). eexists. split; [exact X|]. rewrite ?nores_app, NEV. reflexivity.
       + (* the remaining child is not loaded: resolved for the check *)
         inversion Rr as [| |f1 p1 h1 G2 e2 SF2 W2 EN2 Hh2 HB2 C2 U2| |]; subst.
         destruct (C2 (p ++ [pos]) rem' (gsub_here H false _ rem' e2 SF2 EN2 HB2)) as (e3 & E3 & RS).
@@ -437,7 +437,7 @@ Section SimDel.
             - eapply wfn_short_key. exact WR. }
           split; [discriminate|]. split; [reflexivity|]. split.
           { apply EB; [exact X4|]. intros q [X|[X|[]]]; [discriminate|]. inversion X. eauto. }
-          intros fu' L. destruct (GPRE fu' L NEmpty eq_refl X5) as [ev' X]. eauto.
+          intros fu' L. destruct (GPRE fu' L NEmpty eq_refl X5) as (ev' & NEV & X). eexists. split; [exact X|]. rewrite ?nores_app, NEV. reflexivity.
         * cbn [collapse] in E. inversion E; subst n' ev.
           destruct (IHc2 [TRes (p ++ [pos]) e2] eq_refl) as (G1 & X1 & X2 & X3 & X4 & X5).
           { intros q [X|[]]. discriminate. }
@@ -447,6 +447,6 @@ Section SimDel.
             apply (REM [TRes (p ++ [pos]) e2] eq_refl X4). intros x [X|[]]. discriminate. }
           split; [discriminate|]. split; [reflexivity|]. split.
           { apply EB; [exact X4|]. intros q [X|[]]. discriminate. }
-          intros fu' L. destruct (GPRE fu' L NEmpty eq_refl X5) as [ev' X]. eauto.
+          intros fu' L. destruct (GPRE fu' L NEmpty eq_refl X5) as (ev' & NEV & X). eexists. split; [exact X|]. rewrite ?nores_app, NEV. reflexivity.
   Qed.
 End SimDel.
